@@ -455,6 +455,8 @@ class ExprMixin:
             return self.fresh("str", "exc_" + attr)
         if isinstance(base, VOpaque):
             return VFunc(base.name + "." + attr, "unmodelled")
+        if isinstance(base, VFunc) and base.kind == "unmodelled":
+            return VFunc(base.name + "." + attr, "unmodelled")      # attribute of an unmodelled attribute (Path.parent.mkdir)
         if isinstance(base, VFunc) and base.kind == "callee":
             key = base.name + "." + attr
             if key in self.unit.contract.calls:
